@@ -560,7 +560,7 @@ func c06InflateGenCases(r *Rand, tier string) []string {
 	}
 	n := 260
 	if tier == "thorough" {
-		n = 6000
+		n = 3000
 	}
 	for i := 0; i < n; i++ {
 		out = append(out, c06GenGunzip(r))
